@@ -49,6 +49,7 @@ type quotaCfg struct {
 	win        int64 // ns
 	gh         int   // group-by header index, -1 = none
 	cc         int   // counter-value header index (fixed_window_custom_counter), -1 = fixed_window
+	sp         int64 // spillover.max of the optional `spillover` block, 0 = no block
 	pct        int   // allocation_percentage child (max/win/gh/cc copied from the parent by the loader), -1 = none
 }
 
@@ -111,7 +112,14 @@ func parseQuota(w []string) (quotaCfg, bool) {
 	if !(ok3 && ok4 && ok5) {
 		return quotaCfg{}, false
 	}
-	return quotaCfg{id: int(id), parent: int(par), max: mx, win: win, gh: int(gh), cc: int(cc), pct: -1}, true
+	sp := int64(0)
+	if _, has := proto.KV(w, "sp"); has {
+		var ok bool
+		if sp, ok = kvI(w, "sp"); !ok || sp < 1 {
+			return quotaCfg{}, false
+		}
+	}
+	return quotaCfg{id: int(id), parent: int(par), max: mx, win: win, gh: int(gh), cc: int(cc), pct: -1, sp: sp}, true
 }
 
 func windowYAML(win int64) (int64, string) {
@@ -128,8 +136,23 @@ func windowYAML(win int64) (int64, string) {
 	}
 }
 
+// rootOf: the root quota of the tree a quota belongs to.
+func rootOf(qs []quotaCfg, i int) int {
+	for qs[i].parent >= 0 && qs[i].parent < i {
+		i = qs[i].parent
+	}
+	return i
+}
+
 func quotaYAML(qs []quotaCfg) string {
 	var b strings.Builder
+	// validation accepts a `spillover` block only when the root of the tree declares `monthly_renewal`
+	renew := map[int]bool{}
+	for i, q := range qs {
+		if q.sp > 0 {
+			renew[rootOf(qs, i)] = true
+		}
+	}
 	entry := func(q quotaCfg, child bool) {
 		fmt.Fprintf(&b, "  - id: q%d\n", q.id)
 		if child {
@@ -152,6 +175,12 @@ func quotaYAML(qs []quotaCfg) string {
 		}
 		if q.cc >= 0 {
 			fmt.Fprintf(&b, "        counter_value_path: '$.request.headers[\"x-c%d\"]'\n", q.cc)
+		}
+		if q.sp > 0 {
+			fmt.Fprintf(&b, "        spillover:\n          max: %d\n", q.sp)
+		}
+		if renew[q.id] {
+			b.WriteString("        monthly_renewal:\n          day: 1\n          hour: 0\n          minute: 0\n          timezone: UTC\n")
 		}
 	}
 	b.WriteString("quotas:\n")
@@ -253,7 +282,7 @@ func (w *world) setTime(t int64) {
 	}
 }
 
-func build(qs []quotaCfg, level int, t0 int64) (*world, error) {
+func build(qs []quotaCfg, level int, t0 int64, lim map[int]bool) (*world, error) {
 	dir, err := os.MkdirTemp("", "c01-")
 	if err != nil {
 		return nil, err
@@ -290,6 +319,9 @@ func build(qs []quotaCfg, level int, t0 int64) (*world, error) {
 		return w, nil
 	}
 	for _, q := range qs {
+		if !lim[q.id] {
+			continue // no user flow names this quota
+		}
 		if err := os.WriteFile(filepath.Join(dir, "flows", fmt.Sprintf("f%d.yaml", q.id)), []byte(flowYAML(q.id)), 0o644); err != nil {
 			return w, err
 		}
@@ -405,8 +437,29 @@ func exec(c proto.Case, o *proto.Out) []string {
 				outs[i] = "err:cfg"
 				continue
 			}
+			// lim=<id,id,…>: the quotas named by a user flow (Limiter); default: every quota
+			lim := map[int]bool{}
+			if ls, has := proto.KV(f, "lim"); has {
+				okl := true
+				for _, x := range strings.Split(ls, ",") {
+					n, ok := parseNat(x)
+					if !ok || int(n) >= len(qs) {
+						okl = false
+						break
+					}
+					lim[int(n)] = true
+				}
+				if !okl {
+					outs[i] = "bad-op"
+					continue
+				}
+			} else {
+				for _, q := range qs {
+					lim[q.id] = true
+				}
+			}
 			var err error
-			w, err = build(qs, int(lvl), t0)
+			w, err = build(qs, int(lvl), t0, lim)
 			if err != nil {
 				if os.Getenv("VERIF_DEBUG") != "" {
 					fmt.Fprintln(os.Stderr, "load error:", err)
